@@ -314,6 +314,12 @@ func (ab *rulesPair) equalizeGroups(ra, rb *nsxRule) []change {
 			return
 		}
 		gb := getGroup(lb[0], ab.b.groups)
+		if gb == nil {
+			// Rule from Netspoc references group of same name,
+			// that isn't defined by Netspoc. Leave group on device unchanged.
+			ga.needed = true
+			return
+		}
 		// No need to change name of group in rule from ga to gb
 		// if gb is known to have values of ga.
 		if gb.nameOnDevice == ga.Id {
@@ -390,12 +396,19 @@ func (ab *rulesPair) equalizeGroups(ra, rb *nsxRule) []change {
 }
 
 func sortRules(l []*nsxRule, m map[string]*nsxGroup) {
+	// Group may have empty list of addresses.
+	firstAddr := func(g *nsxGroup) string {
+		if l := g.Expression[0].IPAddresses; len(l) > 0 {
+			return l[0]
+		}
+		return ""
+	}
 	elementCmp := func(ei, ej string) int {
 		gi := getGroup(ei, m)
 		gj := getGroup(ej, m)
 		if gi != nil {
 			if gj != nil {
-				return cmp.Compare(gi.Expression[0].IPAddresses[0], gj.Expression[0].IPAddresses[0])
+				return cmp.Compare(firstAddr(gi), firstAddr(gj))
 			}
 			return -1
 		}
